@@ -356,6 +356,9 @@ func (rw *rewriter) stmt(s ast.Stmt) ast.Stmt {
 		if rw.isChan(x.X) {
 			return rw.rangeChan(x)
 		}
+		if rw.isMap(x.X) && rw.simpleOperand(x.X) && (x.Key != nil || x.Value != nil) {
+			return rw.rangeMap(x)
+		}
 	case *ast.LabeledStmt:
 		if ss, ok := x.Stmt.(*ast.SelectStmt); ok {
 			return rw.selectStmt(ss, x.Label)
@@ -363,6 +366,69 @@ func (rw *rewriter) stmt(s ast.Stmt) ast.Stmt {
 	}
 	rw.walk(s)
 	return s
+}
+
+func (rw *rewriter) isMap(e ast.Expr) bool {
+	tv, ok := rw.info.Types[e]
+	if !ok || tv.Type == nil {
+		return false
+	}
+	_, is := tv.Type.Underlying().(*types.Map)
+	return is
+}
+
+// simpleOperand: an identifier or a chain of field selections (safe to evaluate twice).
+func (rw *rewriter) simpleOperand(e ast.Expr) bool {
+	switch x := e.(type) {
+	case *ast.Ident:
+		return true
+	case *ast.SelectorExpr:
+		return rw.simpleOperand(x.X)
+	case *ast.ParenExpr:
+		return rw.simpleOperand(x.X)
+	}
+	return false
+}
+
+// rangeMap makes map iteration order deterministic (Go randomises it, which would make a
+// recorded schedule irreproducible): `for k, v := range m` iterates over vsched.MapKeys(m),
+// keys in a canonical order, skipping keys deleted meanwhile (as Go's range does).
+func (rw *rewriter) rangeMap(r *ast.RangeStmt) ast.Stmt {
+	m := rw.expr(r.X)
+	keyVar := ast.Expr(rw.fresh("k"))
+	var pre []ast.Stmt
+	okVar := rw.fresh("ok")
+	if r.Key != nil {
+		if id, isId := r.Key.(*ast.Ident); !isId || id.Name != "_" {
+			if r.Tok == token.DEFINE {
+				keyVar = r.Key
+			} else {
+				pre = append(pre, &ast.AssignStmt{Lhs: []ast.Expr{rw.expr(r.Key)}, Tok: token.ASSIGN, Rhs: []ast.Expr{keyVar}})
+			}
+		}
+	}
+	idx := &ast.IndexExpr{X: m, Index: keyVar}
+	valLhs := ast.Expr(ast.NewIdent("_"))
+	valTok := token.DEFINE
+	if r.Value != nil {
+		if id, isId := r.Value.(*ast.Ident); !isId || id.Name != "_" {
+			if r.Tok == token.DEFINE {
+				valLhs = r.Value
+			} else {
+				// assignment form: read into a fresh variable, then assign
+				tmp := rw.fresh("v")
+				pre = append(pre, &ast.AssignStmt{Lhs: []ast.Expr{rw.expr(r.Value)}, Tok: token.ASSIGN, Rhs: []ast.Expr{tmp}})
+				valLhs = tmp
+			}
+		}
+	}
+	fetch := &ast.AssignStmt{Lhs: []ast.Expr{valLhs, okVar}, Tok: valTok, Rhs: []ast.Expr{idx}}
+	skip := &ast.IfStmt{Cond: &ast.UnaryExpr{Op: token.NOT, X: okVar}, Body: &ast.BlockStmt{List: []ast.Stmt{&ast.BranchStmt{Tok: token.CONTINUE}}}}
+	body := rw.stmt(r.Body).(*ast.BlockStmt)
+	list := append([]ast.Stmt{fetch, skip}, pre...)
+	// `pre` assignments must come after the fetch; reorder: fetch, skip, then key/value assignments
+	body.List = append(list, body.List...)
+	return &ast.RangeStmt{Key: ast.NewIdent("_"), Value: keyVar, Tok: token.DEFINE, X: call(sel("vsched", "MapKeys"), m), Body: body}
 }
 
 func (rw *rewriter) goStmt(g *ast.GoStmt) ast.Stmt {
